@@ -266,7 +266,8 @@ def faults_for(base_names):
         if not_referenced:
             targets = [t for t in base_names if t != name and kind(doc0[t]) != "ign" and not has_refs(doc0[t])]
             target = targets[0] if targets else "HED"
-            for suffix in (", {%s" % target, ", %s}" % target, ", {{%s}}" % target, ", {%s}}" % target, ", {", ", }"):
+            for suffix in (", {%s" % target, ", %s}" % target, ", {{%s}}" % target, ", {%s}}" % target, ", {", ", }",
+                           ", {{%s}" % target, ", }{%s}" % target, ", {%s{%s}" % (target, target)):
                 yield L_F_BRACES, f"{name}: append {suffix!r}", with_entry(_append(entry, suffix)), [name]
             yield L_F_UNKNOWN, f"{name}: append ', {{nosuch}}'", with_entry(_append(entry, ", {nosuch}")), [name]
             if "ign1" in base_names:
@@ -439,7 +440,7 @@ def run(w: Workload):
         per_rule[it[1]] = per_rule.get(it[1], 0) + 1
     w.part("faults", cases=n, bound="every applicable (layout, column, fault variant): type faults (6 wrong types for HED and for "
            "each category value), placeholder count (0, 2 in value; 1 in category), HED as column name, n/a key (added / renamed), "
-           "6 unbalanced-brace shapes, unknown / ignored-column / self / nested reference", exhaustive=True, per_rule=per_rule)
+           "9 unbalanced-brace shapes, unknown / ignored-column / self / nested reference", exhaustive=True, per_rule=per_rule)
     w.bounded[-1]["checks_per_clause"] = counters
     w.exhaustive = False
     w.not_covered += ["documents deeper than 3 levels or with more than 2 members per container; more than 2 columns in part 'total'",
